@@ -344,9 +344,9 @@ func (st *Style) tokens(n *N, ctx int) []string {
 	return st.tokensX(n, ctx, false)
 }
 
-// noExtra: never add redundant parentheses around this node.  Used for a negation directly under a
-// negation: the real parser collapses only *adjacent* "!" tokens, and "!(!x)" is the known C06 finding
-// (canonical text "!!x" is not a fixed point); it is exercised by one dedicated trace, not everywhere.
+// noExtra: never add redundant parentheses around this node (kept for callers that want a minimal
+// rendering; the generators pass false everywhere, so "!(!x)", "!((!x))" etc. are produced freely -
+// that shape was the C06 finding fixed in /repo 88cb2cf).
 func (st *Style) tokensX(n *N, ctx int, noExtra bool) []string {
 	var out []string
 	n = unwrap(n)
@@ -400,7 +400,7 @@ func (st *Style) tokensX(n *N, ctx int, noExtra bool) []string {
 		for i := 0; i < nots; i++ {
 			out = append(out, "!")
 		}
-		out = append(out, st.tokensX(n.A, 3, unwrap(n.A).Op == "not")...)
+		out = append(out, st.tokensX(n.A, 3, false)...)
 	case "and", "or":
 		sym := "&&"
 		if n.Op == "or" {
